@@ -144,6 +144,41 @@ def _expected(pix, tables, ph, pw, cval):
     return out, judged
 
 
+def _raw_indices(idx):
+    """rows / columns of a patch are consecutive: extend the in-image indices of the table linearly over the out-of-image entries"""
+    known = [(k, v) for k, v in enumerate(idx) if v >= 0]
+    if not known:
+        return None
+    k0, v0 = known[0]
+    return [v0 + (k - k0) for k in range(len(idx))]
+
+
+def _expected_mode(pix, tables, ph, pw, mode):
+    """boundary modes at WHOLE-pixel sample positions: 'nearest' clamps the index, 'reflect' mirrors it about the image edge
+    (d c b a | a b c d | d c b a)"""
+    n_c, n_o = len(tables), len(tables[0])
+    C, H, W = pix.shape
+
+    def fold(i, n):
+        if mode == "nearest":
+            return min(max(i, 0), n - 1)
+        i = i % (2 * n)
+        return i if i < n else 2 * n - 1 - i
+
+    out = np.zeros((n_c, n_o, C, ph, pw), dtype=pix.dtype)
+    judged = np.zeros((n_c, n_o), dtype=bool)
+    for i in range(n_c):
+        for j in range(n_o):
+            rows, cols = _raw_indices(tables[i][j][0]), _raw_indices(tables[i][j][1])
+            if rows is None or cols is None or -2 in tables[i][j][0] or -2 in tables[i][j][1]:
+                continue
+            judged[i, j] = True
+            rr = [fold(r, H) for r in rows]
+            cc = [fold(c, W) for c in cols]
+            out[i, j] = pix[:, rr][:, :, cc]
+    return out, judged
+
+
 def check_patch(o):
     from menpo.image import Image, MaskedImage
     from menpo.image.patches import extract_patches_by_sampling
@@ -199,6 +234,15 @@ def check_patch(o):
             # integer centres: both paths, and the public order-1 route, must agree with each other
             if not np.array_equal(gp, got):
                 bad.append((tag + ": slicing and resampling paths disagree at integer centres", {}, None))
+            # the other boundary modes of the resampling path: at whole-pixel positions they are index arithmetic
+            if dt == "float64":
+                for mode in ("nearest", "reflect"):
+                    wm, jm = _expected_mode(img.pixels, o["sample"], ph, pw, mode)
+                    for order in (0, 1):
+                        gm = img.extract_patches(PointCloud(cen), patch_shape=(ph, pw), sample_offsets=offs, order=order, mode=mode)
+                        if gm.shape != wm.shape or not np.allclose(gm[jm], wm[jm], rtol=0, atol=1e-9):
+                            bad.append((tag + ": extract_patches(order=%d, mode=%r) does not fill out-of-image samples by the %s rule" % (order, mode, mode), {}, None))
+                            break
             if dt != "uint8":
                 g1 = img.extract_patches(PointCloud(cen), patch_shape=(ph, pw), sample_offsets=offs, order=1, mode="constant", cval=cval)
                 if g1.shape != got.shape or not np.allclose(g1, got, atol=1e-9):
